@@ -26,9 +26,12 @@ def date_template(rng):
     if k == 1:
         m = rng.choice(["%m", "%m", "%b", "%B", "%_b", "%Om", "%mth", "%0m", "%-m", "%h", "% m"])
         d = rng.choice(["%d", "%d", "%dth", "%Od", "%0d", "%-d", "% d"])
-        return ["%Y", m, d], "Ymd" + ("-spacepad" if "% " in m + d else ""), None
+        y = rng.choice(["%Y", "%Y", "%Y", "% Y", "%-Y", "%0Y"])
+        return [y, m, d], "Ymd" + ("-spacepad" if "% " in y + m + d else ""), None
     if k == 2:
-        return ["%Y", rng.choice(["%j", "%D"])], "Yj", None
+        y = rng.choice(["%Y", "%Y", "% Y", "%-Y"])
+        j = rng.choice(["%j", "%D", "%j", "% j", "%-j", "%0j"])
+        return [y, j], "Yj" + ("-pad" if y + j != "%Y" + j[:1] + j[-1:] or len(j) > 2 else ""), None
     if k == 3:
         wd = rng.choice(["%u", "%a", "%A", "%_a"])
         return ["%G", "%V", wd], "GVu", None
